@@ -6,6 +6,7 @@ package main
 
 import (
 	"fmt"
+	"go/token"
 	"go/types"
 	"strings"
 
@@ -307,6 +308,28 @@ func ruleBoundedReads(c *Ctx) {
 	for _, typ := range []string{"httpCache", "HTTPResponse"} {
 		if f := c.P.Method("cache", typ, "FromBytes"); f != nil {
 			roots[f] = true
+		}
+	}
+	for fn := range scope {
+		// structural: no run-time sized allocation, and no size limit of the decoder's own
+		for _, b := range fn.Blocks {
+			for _, in := range b.Instrs {
+				if ms, ok := in.(*ssa.MakeSlice); ok {
+					if _, isConst := ms.Len.(*ssa.Const); !isConst {
+						bad = append(bad, fmt.Sprintf("%s: allocation whose size is computed at run time inside a decoder (must not depend on lengths read from the record)", c.P.pos(ms.Pos())))
+					}
+				}
+				if bo, ok := in.(*ssa.BinOp); ok {
+					switch bo.Op {
+					case token.LSS, token.LEQ, token.GTR, token.GEQ:
+						for _, op := range []ssa.Value{bo.X, bo.Y} {
+							if cst, ok := op.(*ssa.Const); ok && cst.Value != nil && isIntType(cst.Type()) && cst.Int64() > 64 {
+								bad = append(bad, fmt.Sprintf("%s: %s compares a length with the constant %d: the encoder has no such limit, so an entry it writes (a large body) can never be read back", c.P.pos(bo.Pos()), funcName(fn), cst.Int64()))
+							}
+						}
+					}
+				}
+			}
 		}
 	}
 	for fn := range scope {
